@@ -370,13 +370,7 @@ class Fn:
                     t0 = self.term(pd['init'], inline, depth + 1)
                     while t0 and t0[0] == 'cast':
                         t0 = t0[2]
-                    elems = None
-                    if t0 and t0[0] == 'init':
-                        elems = t0[1:]
-                    elif t0 and t0[0] == 'construct' and str(t0[1]) in ('std::pair', 'std::tuple'):
-                        elems = t0[2]
-                    elif t0 and t0[0] == 'call' and str(t0[1]) in ('std::make_pair', 'std::make_tuple'):
-                        elems = tuple(x[2] if isinstance(x, tuple) and x and x[0] == 'cast' else x for x in t0[2])
+                    elems = _aggregate_elems(t0)
                     if elems is not None and idx is not None and idx < len(elems) and len(elems) == len(sibs):
                         return elems[idx]
             if dk in ('local', 'binding', 'static_local') and (inline or self.defs.get(nd['d'], {}).get('inl')):
@@ -567,6 +561,30 @@ class Fn:
                 return self.blockof[x]
             x = self.parent(x)
         return None
+
+
+def _aggregate_elems(t0):
+    """elements of a term that denotes an aggregate: {a, b}, pair(a, b), make_pair(a, b), or a conditional between two such
+    aggregates (the value of a helper of the form `if (c) return {a, b}; return {x, y};`): element-wise conditional"""
+    while t0 and t0[0] == 'cast':
+        t0 = t0[2]
+    if not t0:
+        return None
+    if t0[0] == 'init':
+        return t0[1:]
+    if t0[0] == 'construct' and str(t0[1]) in ('std::pair', 'std::tuple'):
+        if len(t0[2]) == 1:
+            inner = _aggregate_elems(t0[2][0])       # pair(pair) copy / conversion of an aggregate
+            if inner is not None:
+                return inner
+        return t0[2]
+    if t0[0] == 'call' and str(t0[1]) in ('std::make_pair', 'std::make_tuple'):
+        return tuple(x[2] if isinstance(x, tuple) and x and x[0] == 'cast' else x for x in t0[2])
+    if t0[0] == 'cond' and len(t0) == 4:
+        a, b = _aggregate_elems(t0[2]), _aggregate_elems(t0[3])
+        if a is not None and b is not None and len(a) == len(b):
+            return tuple(('cond', t0[1], x, y) for x, y in zip(a, b))
+    return None
 
 
 def fmt_term(t, depth=0):
